@@ -8,6 +8,8 @@ import (
 	"strings"
 	"testing"
 	"time"
+	xv1 "verif/harness/gens/zoo/x/v1"
+	yv1 "verif/harness/gens/zoo/y/v1"
 
 	"pgregory.net/rapid"
 
@@ -50,6 +52,7 @@ var zooTypes = []reflect.Type{
 	reflect.TypeOf(za.Pair{}), reflect.TypeOf(zb.Pair{}), reflect.TypeOf(za.Embeds{}), reflect.TypeOf(za.Uniq{}),
 	reflect.TypeOf(anon1{}), reflect.TypeOf(anon2{}), reflect.TypeOf(anon3{}), reflect.TypeOf(za.Deep{}), reflect.TypeOf(za.EmbedsDeep{}),
 	reflect.TypeOf(za.Overlap{}), reflect.TypeOf(za.OverlapEmb{}), reflect.TypeOf(za.Times{}),
+	reflect.TypeOf(xv1.Entry{}), reflect.TypeOf(yv1.Invoice{}), reflect.TypeOf(xv1.Entry{}), reflect.TypeOf(yv1.Invoice{}),
 }
 
 var structOfFieldTypes = []reflect.Type{
@@ -132,6 +135,21 @@ func usesInterface(rt reflect.Type, depth int) bool {
 var bigIntMode int
 
 var timeType = reflect.TypeOf(time.Time{})
+
+// unmarshalerConfig selects, per case, how the recomposers are set up: true = as package oj's init leaves the
+// default recomposer (the json.Unmarshaler composer registered: members whose pointer type implements
+// json.Unmarshaler decode themselves from the JSON of their decomposition); false = a user's own set-up with an
+// any-composer for time.Time and no unmarshaler composer. The two cannot be combined for time values: the
+// unmarshaler composer takes precedence and time.Time's UnmarshalJSON reads RFC 3339 text only.
+var unmarshalerConfig bool
+
+func configureRecomposer(r *alt.Recomposer) {
+	if unmarshalerConfig {
+		r.RegisterUnmarshalerComposer(func(v any) (any, error) { return []byte(oj.JSON(v)), nil })
+		return
+	}
+	_ = r.RegisterAnyComposer(time.Time{}, composeTime)
+}
 
 // composeTime is the any-composer a user registers for time.Time (the documented way to get times back): it
 // takes what the encoders write under the options used here - nanoseconds since the epoch or an RFC 3339 text.
@@ -399,6 +417,13 @@ func drawOp16(t *rapid.T) *op16 {
 		o.StructOf = true
 	} else {
 		o.Type = zooTypes[sim.Intn(t, len(zooTypes), "type")]
+		// each recomposer set-up has one type it cannot serve (see unmarshalerConfig)
+		if unmarshalerConfig && o.Type == reflect.TypeOf(za.Times{}) {
+			o.Type = reflect.TypeOf(yv1.Invoice{})
+		}
+		if !unmarshalerConfig && o.Type == reflect.TypeOf(xv1.Entry{}) {
+			o.Type = reflect.TypeOf(yv1.Invoice{})
+		}
 	}
 	if o.Kind == "roundtrip" {
 		o.Value = reflect.New(o.Type).Elem()
@@ -424,7 +449,7 @@ type res16 struct {
 // public API only (what oj's init does).
 func resetDefaultRecomposer(createKey string) {
 	alt.DefaultRecomposer = *alt.MustNewRecomposer(createKey, nil)
-	_ = alt.DefaultRecomposer.RegisterAnyComposer(time.Time{}, composeTime)
+	configureRecomposer(&alt.DefaultRecomposer)
 	// the type named by create keys in interface-typed fields must be registered beforehand (documented
 	// precondition of create keys: the registry is what maps the name back to a type)
 	_ = alt.DefaultRecomposer.RegisterComposer(&za.Uniq{}, nil)
@@ -577,6 +602,8 @@ func sortStrings(s []string) {
 func propC16(cx *sim.Ctx) {
 	sim.Declare([]string{"short_name_collision_in_history", "anonymous_type_after_anonymous_type", "inverse_law_judged"}, []string{"failed_recomposition", "process_restart"})
 	t := cx.T
+	unmarshalerConfig = sim.Bool(t, "unmarshalerconfig")
+	cx.Key(unmarshalerConfig)
 	ops := rapid.SliceOfN(rapid.Custom(drawOp16), 2, 10).Draw(t, "ops")
 	restartAt := -1
 	if sim.Intn(t, 6, "restart") == 5 {
@@ -606,7 +633,7 @@ func propC16(cx *sim.Ctx) {
 		}
 		// reference: the same op on a fresh recomposer
 		fresh := alt.MustNewRecomposer("type", nil)
-		_ = fresh.RegisterAnyComposer(time.Time{}, composeTime)
+		configureRecomposer(fresh)
 		_ = fresh.RegisterComposer(&za.Uniq{}, nil)
 		want := o.run(fresh)
 		cx.Exec()
